@@ -67,7 +67,7 @@ Print Assumptions C08_partition_offsets_in_range.
 
 (** Algorithm, rank = N ("very end"). *)
 Theorem C08_partition_full_rank : forall (A : Type) (ltb : A -> A -> bool), SWO ltb -> forall (seqs : list (list A)),
-  dflt seqs <> None -> any_empty seqs = false -> all_sorted ltb seqs ->
+  any_empty seqs = false -> all_sorted ltb seqs ->
   partition ltb seqs (Z.of_nat (total seqs)) = Some (map Z.of_nat (split_spec ltb seqs (total seqs))).
 Proof. exact (@partition_full_rank). Qed.
 Print Assumptions C08_partition_full_rank.
@@ -77,12 +77,13 @@ Print Assumptions C08_partition_full_rank.
     halving loop with lmax, `middle` test by (value, sequence), skew, both priority-queue corrections — returns
     exactly the split determined by the property (C08_spec_unique / C08_split_spec_is_split): never the error
     result, left parts hold exactly [r] elements, no left element above a right one, ties from lower-numbered
-    sequences first. ([dflt seqs <> None] says the tuple and its first sequence are non-empty; [any_empty seqs =
-    false] that no sequence is empty.) *)
+    sequences first. The only hypotheses are those of the property text: no sequence is empty ([any_empty seqs =
+    false], the documented precondition and the assert of the code), each is sorted, 0 <= r <= N.  No hypothesis on
+    the number of sequences: for m = 0 (then r = 0) the code takes its "very end" exit and so does the model. *)
 Theorem C08_partition_correct : forall (A : Type) (ltb : A -> A -> bool), SWO ltb -> forall (seqs : list (list A)) (r : nat),
-  dflt seqs <> None -> any_empty seqs = false -> all_sorted ltb seqs -> r <= total seqs ->
+  any_empty seqs = false -> all_sorted ltb seqs -> r <= total seqs ->
   partition ltb seqs (Z.of_nat r) = Some (map Z.of_nat (split_spec ltb seqs r)).
-Proof. exact (@partition_correct). Qed.
+Proof. exact (@partition_correct_all). Qed.
 Print Assumptions C08_partition_correct.
 
 (** THE GOAL THEOREM for multisequence_selection: for every strict weak order, every non-empty tuple of non-empty
@@ -90,7 +91,7 @@ Print Assumptions C08_partition_correct.
     maxleft / minright and the offset by lower_bound) returns a value equivalent to the element at that rank of the
     merged order, together with the number of equivalent elements before it. *)
 Theorem C08_selection_correct : forall (A : Type) (ltb : A -> A -> bool), SWO ltb -> forall (seqs : list (list A)) (r : nat),
-  dflt seqs <> None -> any_empty seqs = false -> all_sorted ltb seqs -> r < total seqs ->
+  any_empty seqs = false -> all_sorted ltb seqs -> r < total seqs ->
   exists v off w, selection ltb seqs (Z.of_nat r) = SelOk v off /\ (0 <= off)%Z /\
                   select_spec ltb seqs r = Some (w, Z.to_nat off) /\ eqvb ltb v w = true.
 Proof. exact (@selection_meets_spec). Qed.
@@ -113,3 +114,18 @@ Theorem C08_partition_shipped_refuted :
     partition Nat.ltb seqs (Z.of_nat r) = Some [7; 1]%Z.
 Proof. exact partition_shipped_refuted. Qed.
 Print Assumptions C08_partition_shipped_refuted.
+
+(** The code before b429853 accumulated the total N in the caller's RankType; the model of that behaviour for an 8-bit
+    rank type on 200 + 100 equal elements (N = 300 wraps to 44): rank 44 is answered (200,100) - not a split - and the
+    selection throws, rank 255 hits the assertion; the repaired model gives (44,0), (1, offset 44) and (200,55). *)
+Theorem C08_total_in_ranktype_shipped_refuted :
+  all_sorted Nat.ltb narrow_witness /\ any_empty narrow_witness = false /\ total narrow_witness = 300 /\
+  partition_total_in_ranktype_shipped Nat.ltb 8 narrow_witness 44 = Some [200; 100]%Z /\
+  check_split Nat.ltb narrow_witness 44 [200; 100] = false /\
+  selection_total_in_ranktype_shipped_throws 8 narrow_witness 44 = true /\
+  partition_total_in_ranktype_shipped Nat.ltb 8 narrow_witness 255 = None /\
+  partition Nat.ltb narrow_witness 44 = Some [44; 0]%Z /\
+  selection Nat.ltb narrow_witness 44 = SelOk 1 44%Z /\
+  partition Nat.ltb narrow_witness 255 = Some [200; 55]%Z.
+Proof. exact total_in_ranktype_shipped_refuted. Qed.
+Print Assumptions C08_total_in_ranktype_shipped_refuted.
